@@ -50,7 +50,16 @@ def cell(rng, col, pk):
         w = c['field_length']
         return str(rng.choice([0, 1, 10 ** w - 1, rng.randrange(0, 10 ** w)]))
     if pt == 'datetime':
-        return str(iu.rand_date(rng, c['field_date_format']))
+        d = iu.rand_date(rng, c['field_date_format'])
+        r = rng.random()
+        if r < 0.15:
+            return d.isoformat()                     # ISO 8601 proper: 'T' between date and time
+        if r < 0.22 and 'S' in c['field_date_format']:
+            d = d.replace(second=0)
+            return d.isoformat(sep=rng.choice(' T'), timespec='minutes')
+        if r < 0.28 and 'H' in c['field_date_format']:
+            return d.replace(hour=0, minute=0, second=0).date().isoformat()     # a date alone is midnight
+        return str(d)
     if c['field_type'] == 'FIXED':
         n = c['field_length']
     else:
@@ -216,6 +225,18 @@ def impl(case):
             'text_in': text, 'text_out': out}
 
 
+def expect_cell(col, x):
+    """the cell that must come back: the same text, except that a date-time given in another ISO spelling ('T' separator,
+    no seconds, date alone) comes back in the spelling str(datetime) has - the same VALUE"""
+    if x and col.startswith('DE') and col[2:].isdigit():
+        from cardutil.config import config
+        c = config['bit_config'].get(col[2:], {})
+        if c.get('field_python_type') == 'datetime':
+            import datetime
+            return str(datetime.datetime.fromisoformat(x))
+    return x
+
+
 def cols_text(cols):
     return ','.join(iu.key_text(c) for c in cols)
 
@@ -272,7 +293,7 @@ def judge(case, io_, mo):
         # with carrier AND sub-element columns in one table, a cell the row left empty may come back filled with what
         # decoding derives (the carrier of the row's sub-elements, the sub-elements of the row's carrier): every
         # SUPPLIED cell must come back unchanged
-        same = [x == y or (mixed and x == '' and pds_related(c)) for c, x, y in zip(case['cols'], a, b)]
+        same = [expect_cell(c, x) == y or (mixed and x == '' and pds_related(c)) for c, x, y in zip(case['cols'], a, b)]
         if not all(same):
             j = same.index(False)
             return [{'kind': 'oracle', 'sig': 'cell-changed', 'msg': 'row %d column %s: %r came back as %r' % (i + 1, case['cols'][j], a[j], b[j])}]
